@@ -2,11 +2,15 @@
 # extract the Coq models to OCaml (Separate Extraction, run inside extracted/) and build the runner
 set -e
 cd "$(dirname "$0")"
+../bin/gen_build_files
 mkdir -p extracted _build
+( cd ../coq && timeout 1500 make -j16 Extract/Extract.vo >/dev/null 2>&1 || true )
 ( cd extracted && find . -maxdepth 1 -type f \( -name '*.ml' -o -name '*.mli' \) -delete && coqc -R ../../coq Comdex ../../coq/Extract/Extract.v >/dev/null )
 find _build -maxdepth 1 -type f -delete
 cp extracted/*.ml extracted/*.mli _build/
 cp *.ml _build/
 cd _build
-ORDER=$(ocamlfind ocamldep -sort *.mli *.ml)
-ocamlfind ocamlopt -O3 -w -a -package zarith -linkpkg $ORDER -o ../runner 2>/dev/null || ocamlfind ocamlopt -w -a -package zarith -linkpkg $ORDER -o ../runner
+# main.ml must come last; every cXX.ml is linked (it registers itself)
+ORDER=$(ocamlfind ocamldep -sort $(ls *.mli *.ml | grep -v '^main.ml$'))
+ocamlfind ocamlopt -O3 -w -a -package zarith -linkpkg $ORDER main.ml -o ../runner.new 2>/dev/null || ocamlfind ocamlopt -w -a -package zarith -linkpkg $ORDER main.ml -o ../runner.new
+mv ../runner.new ../runner
